@@ -510,11 +510,12 @@ def unary_over(c, ci: Info, tier):
         rc = len(ci.cond_shape)
         cond_axes += list(range(0, rc + 1)) + list(range(-1, -(rc + 1) - 1, -1))
     for ca in cond_axes:
-        out.append(L("Vmap", c=c, mode="broadcast", n=2, cond_axis=ca))
+        # n = 3 differs from every condition axis size (2) used by the grammar: a misplaced axis cannot coincide
+        out.append(L("Vmap", c=c, mode="broadcast", n=2 if ca is None else 3, cond_axis=ca))
     out.append(L("Vmap", c=c, mode="broadcast", n=3, cond_axis=None))
     if _vmappable(c):
         for ca in cond_axes[:3]:
-            out.append(L("Vmap", c=c, mode="mapped", n=2, cond_axis=ca))
+            out.append(L("Vmap", c=c, mode="mapped", n=2 if ca is None else 3, cond_axis=ca))
         for n in (1, 2, 3):
             s = L("Scan", c=c, n=n)
             if _well(s):
